@@ -429,3 +429,4 @@ from contracts import c04 as _c04
 _m = _copy.copy(_c04.mark_extra)
 _m.prop = 'C19'
 CONTRACTS.append(_m)
+CONTRACTS.append(_gu.make_residue_graph('C19'))
